@@ -8,13 +8,7 @@
 #define CONTRACTS_TREE_BUILDER_JOIN_H
 #include "spec/tree.h"
 
-#define TN_WELLFORMED(n) ((n) == NULL || (((n)->hash != NULL) != ((n)->metaData != NULL)))
-/* number of transcript events a node contributes: imprint = 1, meta-data = serialize + add = 2 */
-#define TN_EVENTS(n) ((n)->hash != NULL ? 1u : 2u)
-/* events [i ..] of the transcript are exactly the contribution of node n */
-#define TR_IS_NODE(i, n) ((n)->hash != NULL \
-	? (g_tr[(i)].kind == TR_IMPRINT && g_tr[(i)].obj == (const void *)(n)->hash) \
-	: (g_tr[(i)].kind == TR_MDSER && g_tr[(i)].obj == (const void *)(n)->metaData && g_tr[(i) + 1].kind == TR_BYTES))
+#include "contracts/tree_builder_joinhashes.h"
 #define JOIN_ARGS_OK (ctx != NULL && leftSibling != NULL && rightSibling != NULL && root != NULL)
 #define JOIN_LEVELS_OK (spec_tree_join_ok((long long)leftSibling->level, (long long)rightSibling->level))
 
